@@ -38,8 +38,14 @@ package objectdeployments
 //@   sink Client.Delete#1 requires [C08] numToDelete + idx == loopentry(numToDelete)
 //@   loop 1 invariant 0 <= idx && numToDelete + idx == loopentry(numToDelete)
 
-//@ props C09
+//@ props C07,C09
 //@ func package-operator.run/internal/controllers/objectdeployments.(*objectSetReconciler).Reconcile
 //@   sink objectSetSubReconciler.Reconcile#1 requires [C09] !depPaused(objectDeployment)
+// no revision is created (or anything else decided) while some existing ObjectSet has not reported its revision yet
+//@   loop 1 invariant [C07] 0 <= idx && (forall i int :: 0 <= i && i < idx ==> ownerRev(objectSets[i]) != 0)
+//@   at loopexit#1 assert [C07] forall i int :: 0 <= i && i < len(objectSets) ==> ownerRev(objectSets[i]) != 0
+// unpausing releases exactly the revisions the parent had paused; pausing marks only revisions it had not paused
+//@   at SetActiveByParent#1 assert [C09] pausedByParent(objectSet) && !depPaused(objectDeployment)
+//@   at SetPausedByParent#1 assert [C09] !pausedByParent(objectSet) && depPaused(objectDeployment)
 //@   sink Client.Update#1 requires [C09] !archivedOS(objectSet)
 //@   loop 3 invariant !depPaused(objectDeployment)
